@@ -280,9 +280,8 @@ func (f *file) ReadBlobAt(length int, off int64) (b blob.Blob, n int, err error)
 	if f.closed {
 		return nil, 0, f.closedErr("read")
 	}
-	if off >= int64(f.Size()) {
-		return nil, 0, io.EOF
-	}
+	// load the contents first: Size() falls back to the size recorded at open time when they cannot be loaded,
+	// which would turn a failed load into an (empty) successful read
 	data, err := f.Data()
 	if err != nil {
 		return nil, 0, err
